@@ -9,12 +9,14 @@ class KGTimerHandler:
         self.name = name
         self.interval = interval
         self.delegate = None
+        self.cancelled = False
 
     def cancel(self):
         if self.delegate is None:
             return 0
         self.delegate.cancel()
         self.delegate = None
+        self.cancelled = True
         return 1
     
     def __str__(self):
@@ -26,6 +28,9 @@ def _call_periodic(loop: asyncio.BaseEventLoop, name, interval, callback):
 
     def run(handle, fn=callback):
         r = fn()
+        if handle.cancelled:
+            # .timerc was issued from inside the callback: do not re-arm
+            return
         if r:
             if interval == 0:
                 handle.delegate = loop.call_soon(run, handle)
